@@ -16,6 +16,10 @@ type genericPair struct {
 	A, B     Case
 	Strategy int
 	tape     *Tape
+	// MapOrder: a value type of the pair yields inside the library's fill phase, whose order over the containers
+	// is Go's map iteration order: where exactly the switch lands is then not decided by the tape alone, and a
+	// replay of a violation may need several attempts (the clause is tagged, the replay step retries up to 20 times)
+	MapOrder bool
 }
 
 func (g *genericPair) Describe() interface{} {
@@ -63,6 +67,9 @@ func execGenericPair(g *genericPair, st *Stats, prep func(c Case, id int) *Prepa
 	for _, pr := range []*Prepared{pa, pb} {
 		if v := pr.Finish(st); v != nil {
 			v.Detail = "(run together with another application under the scheduler) " + v.Detail
+			if g.MapOrder {
+				v.Clause += " (map-order)"
+			}
 			return v
 		}
 	}
